@@ -218,6 +218,9 @@ func gen(args []string) {
 		c.Replay = readLines(*replay)
 	}
 	c.fam = f
+	if v := c.Arg("gomaxprocs", ""); v != "" {
+		os.Setenv("GOMAXPROCS", v) // inherited by the worker processes that run the real code
+	}
 	if c.Replay != nil {
 		for _, l := range c.Replay {
 			parts := strings.SplitN(l, " ", 3)
